@@ -24,7 +24,8 @@ static bool same_bits(double a, double b) { unsigned long x, y; std::memcpy(&x, 
 // the scripted state of the object behind the handle
 struct Script
 {
-   int n;                          // number of columns = number of rows
+   int n;                          // number of columns
+   int m;                          // number of rows (== n except in the solution obligation, where it is independent)
    bool has_sol;
    double v[NMAX], w[NMAX];        // LP data / scripted vector values
    int ival; double dval;          // scripted scalar results
@@ -54,7 +55,7 @@ extern "C" {
       free(p);
       p = q;
    }
-   int m_numRows(const SP* self) { if(seen_which == G_NONE) saw(G_NUMROWS, self); return S.n; }          // also used inside getDualReal
+   int m_numRows(const SP* self) { if(seen_which == G_NONE) saw(G_NUMROWS, self); return S.m; }          // also used inside getDualReal
    int m_numCols(const SP* self) { if(seen_which == G_NONE) saw(G_NUMCOLS, self); return S.n; }
    int m_status(const SP* self) { saw(G_STATUS, self); return S.ival; }
    int m_numIterations(const SP* self) { saw(G_ITERS, self); return S.ival; }
@@ -83,9 +84,11 @@ extern "C" {
 
 // ------------------------------------------------------------------------------------------------------------------------------
 // draws the script (same draws in both builds) and creates the object
-static void setup(bool solve)
+static void setup(bool solve, bool indep_rows = false)
 {
    S.n = vp_int_in(0, NMAX);
+   S.m = S.n;
+   if(indep_rows) S.m = vp_int_in(0, NMAX);
    S.has_sol = vp_nondet_bool();
    for(int j = 0; j < NMAX; ++j) S.v[j] = vp_small(0, 4);
    for(int j = 0; j < NMAX; ++j) S.w[j] = vp_small(0, 4);
@@ -97,10 +100,14 @@ static void setup(bool solve)
    A->setIntParam(SoPlex::VERBOSITY, 0);
    A->setIntParam(SoPlex::OBJSENSE, SoPlex::OBJSENSE_MAXIMIZE);
    // max sum (1+v_j) x_j  s.t.  x_i + [x_{i+1}] <= 1 + w_i,  x >= 0  (bounded, feasible)
-   for(int j = 0; j < S.n; ++j) { DSVector e(1); A->addColReal(LPCol(1.0 + S.v[j], e, infinity, S.v[j] - 4.0)); }
-   for(int i = 0; i < S.n; ++i)
+   // independent row count: S.n columns (with finite upper bounds: fewer rows than columns must not make it unbounded) and S.m rows
+   // (row i >= n: x_{i mod n} <= 1 + w_i, or an empty row if there is no column), so that the dual vector has S.m entries
+   for(int j = 0; j < S.n; ++j) { DSVector e(1); A->addColReal(LPCol(1.0 + S.v[j], e, indep_rows ? 10.0 + S.w[j] : (double)infinity, S.v[j] - 4.0)); }
+   for(int i = 0; i < S.m; ++i)
    {
-      DSVector r(2); r.add(i, 1.0); if(i + 1 < S.n) r.add(i + 1, 2.0);
+      DSVector r(2);
+      if(i < S.n) { r.add(i, 1.0); if(i + 1 < S.n) r.add(i + 1, 2.0); }
+      else if(S.n > 0) r.add(i % S.n, 1.0);
       A->addRowReal(LPRow(-infinity, r, 1.0 + S.w[i]));
    }
    if(solve && S.has_sol) A->optimize();
@@ -182,24 +189,25 @@ extern "C" void h_c20_optimize()
 // ------------------------------------------------------------------------------------------------------------------------------
 // solution vectors: SoPlex_getPrimalReal / getDualReal / getRedCostReal into a buffer of exactly dim doubles
 struct Exp { bool ok; int need; double val[NMAX]; };
-static void body_solution(int fn, int n, int dim)
+static void body_solution(int fn, int n, int m, int dim)
 {
-   Exp e; e.need = n;
+   Exp e; e.need = fn == 1 ? m : n;                  // duals: one entry per row; primal and reduced costs: one per column
 #ifdef VP_NATIVE
    SoPlex* A = (SoPlex*)hA;
    VectorBase<double> x(fn == 1 ? A->numRows() : A->numCols());
    bool got = fn == 0 ? A->getPrimal(x) : fn == 1 ? A->getDual(x) : A->getRedCost(x);
-   e.ok = got && dim >= n;
-   for(int j = 0; j < n; ++j) e.val[j] = x[j];
+   e.ok = got && dim >= e.need;
+   for(int j = 0; j < e.need; ++j) e.val[j] = x[j];
 #else
    SoPlex* sp = &mem.sp;
    sp->_hasSolReal = S.has_sol; sp->_hasSolRational = false;
    new(&sp->_solReal._primal) VectorBase<double>(n);
-   new(&sp->_solReal._dual) VectorBase<double>(n);
+   new(&sp->_solReal._dual) VectorBase<double>(m);
    new(&sp->_solReal._redCost) VectorBase<double>(n);
-   for(int j = 0; j < n; ++j) { sp->_solReal._primal[j] = S.v[j]; sp->_solReal._dual[j] = S.w[j]; sp->_solReal._redCost[j] = S.v[j] - S.w[j]; }
-   e.ok = S.has_sol && dim >= n;
-   for(int j = 0; j < n; ++j) e.val[j] = fn == 0 ? S.v[j] : fn == 1 ? S.w[j] : S.v[j] - S.w[j];
+   for(int j = 0; j < n; ++j) { sp->_solReal._primal[j] = S.v[j]; sp->_solReal._redCost[j] = S.v[j] - S.w[j]; }
+   for(int i = 0; i < m; ++i) sp->_solReal._dual[i] = S.w[i];
+   e.ok = S.has_sol && dim >= e.need;
+   for(int j = 0; j < e.need; ++j) e.val[j] = fn == 0 ? S.v[j] : fn == 1 ? S.w[j] : S.v[j] - S.w[j];
 #endif
    double* buf = sentinel_array(dim);
    if(fn == 0) SoPlex_getPrimalReal(hA, buf, dim);
@@ -214,10 +222,11 @@ static void body_solution(int fn, int n, int dim)
 }
 extern "C" void h_c20_get_solution()
 {
-   setup(true);
+   setup(true, true);                     // numbers of rows and columns independent of each other
    int fn = vp_int_in(0, 2);
    int dim = vp_int_in(0, NMAX);          // smaller than, equal to and larger than the LP dimension
-   for(int n = 0; n <= NMAX; ++n) for(int d = 0; d <= NMAX; ++d) if(S.n == n && dim == d) body_solution(fn, n, d);
+   for(int n = 0; n <= NMAX; ++n) for(int m = 0; m <= NMAX; ++m) for(int d = 0; d <= NMAX; ++d)
+            if(S.n == n && S.m == m && dim == d) body_solution(fn, n, m, d);
    vp_cover(1);
 }
 
